@@ -62,6 +62,9 @@ def _inode(sock) -> int:
     return os.fstat(sock.fileno()).st_ino
 
 
+_HUNG = {"bridge": 0, "client": 0}             # histories in which the object under test hung; after three, no more are attempted
+_PATIENCE = {"bridge": 120, "client": 60}      # seconds a history may take before the object under test is declared hung
+
 PORT_FORMS = {"list": list, "tuple": tuple, "set": set, "frozenset": frozenset, "keys": lambda ps: dict.fromkeys(ps).keys()}
 
 
@@ -219,6 +222,8 @@ async def _bridge_life(nports: int, acts: List[str], st: dict, all_acts: List[st
 def run_bridge_life(nports: int, acts: List[str]) -> str:
     """the history is cut at every "newloop": each piece runs under an event loop of its own (the first under the harness's usual
     one), the bridge OBJECT stays the same - a bridge that is not running belongs to no loop"""
+    if _HUNG["bridge"] >= 3:
+        return "NOT-RUN(the bridge hung in three earlier histories of this run)"
     segments, cur = [], []
     for a in acts:
         cur.append(a)
@@ -237,8 +242,10 @@ def run_bridge_life(nports: int, acts: List[str]) -> str:
 
         async def bounded(seg=seg, last=last):
             try:
-                return await asyncio.wait_for(_bridge_life(nports, seg, st, acts, last), 120)
+                return await asyncio.wait_for(_bridge_life(nports, seg, st, acts, last), _PATIENCE["bridge"])
             except asyncio.TimeoutError:
+                _PATIENCE["bridge"] = 15       # once a bridge has hung in this process, later histories (and the shrinking) wait less
+                _HUNG["bridge"] += 1
                 return "HARNESS-TIMEOUT(the bridge did not come back within 120 s)"
         try:
             if k:
@@ -466,6 +473,15 @@ async def _client_life(api_type: str, acts: List[str]) -> str:
                     if not hung:            # this client opens its connections some other way: the scenario cannot be staged; undo
                         await api.disconnect()
                     raise OSError("connect given up")
+                elif a == "o:cpdrop":
+                    # a copy of this client (copy.copy, whatever state it is in) is made and dropped again at once: an object that
+                    # goes away takes nothing of this client's with it
+                    import copy
+                    import gc
+                    c = copy.copy(api)
+                    del c
+                    gc.collect()
+                    await asyncio.sleep(0)
                 elif a == "o:copy":
                     import copy
                     if other["api"] is None:
@@ -551,9 +567,13 @@ async def _client_life(api_type: str, acts: List[str]) -> str:
 
 
 def run_client_life(api_type: str, acts: List[str]) -> str:
+    if _HUNG["client"] >= 3:
+        return "NOT-RUN(the client hung in three earlier histories of this run)"
     async def bounded():
         try:
-            return await asyncio.wait_for(_client_life(api_type, acts), 60)
+            return await asyncio.wait_for(_client_life(api_type, acts), _PATIENCE["client"])
         except asyncio.TimeoutError:
+            _PATIENCE["client"] = 10
+            _HUNG["client"] += 1
             return "HARNESS-TIMEOUT(the client did not come back within 60 s)"
     return H.loop().run_until_complete(bounded())
